@@ -372,6 +372,43 @@ def raw_specs():
     return out
 
 
+def map_usage_part(viol):
+    """a schema that recurses through MAP VALUES, sent as a request body and received only inside a map of a response:
+    the emitted module has to be usable in both directions (derives follow the boxed map value) and compile"""
+    R_ = lambda t: {"$ref": f"#/components/schemas/{t}"}
+    spec = {"openapi": "3.1.0", "info": {"title": "t", "version": "1"}, "paths": {
+        "/folders": {"post": {"operationId": "put_folder", "requestBody": {"required": True, "content": {"application/json": {"schema": R_("Folder")}}}, "responses": {"204": {"description": "n"}}},
+                     "get": {"operationId": "get_index", "responses": {"200": {"description": "ok", "content": {"application/json": {"schema": R_("FolderIndex")}}}}}}},
+        "components": {"schemas": {"Folder": {"type": "object", "properties": {"name": {"type": "string"}, "children": {"type": "object", "additionalProperties": R_("Folder")}}},
+                                   "FolderIndex": {"type": "object", "properties": {"roots": {"type": "object", "additionalProperties": R_("Folder")}, "flat": {"type": "array", "items": R_("Leafy")}}},
+                                   "Leafy": {"type": "object", "properties": {"up": R_("Leafy"), "tags": {"type": "object", "additionalProperties": {"type": "array", "items": R_("Leafy")}}}}}}}
+    d = vlib.scratch("C10m")
+    sp = os.path.join(d, "spec.json")
+    json.dump(spec, open(sp, "w"))
+    outp = os.path.join(d, "out")
+    rc, txt = vlib.oas(["generate", "client-mod", "-i", sp, "-o", outp, "-q"])
+    if rc != 0:
+        viol.append(("map-usage", None, spec, f"recursion through map values used in both directions: generation failed rc={rc} {txt[-200:]}"))
+        return 0
+    ar = Arena("c10m")
+    ar.add_case(0, outp)
+    ar.write_main('''fn main() {
+    let doc = r#"{"roots":{"a":{"name":"x","children":{"b":{"name":"y","children":{}}}}},"flat":[{"up":{"tags":{"k":[{}]}}}]}"#;
+    let idx: case_0::FolderIndex = serde_json::from_str(doc).unwrap();
+    let f = case_0::Folder { name: Some("n".to_string()), children: None };
+    println!("{} {}", idx.roots.as_ref().map(|r| r.len()).unwrap_or(0), serde_json::to_string(&f).unwrap());
+}
+''')
+    ok, diags, err = ar.cargo("build")
+    if not ok:
+        viol.append(("map-usage", None, spec, f"recursion through map values used in both directions: rustc rejects the module: {(diags[0]['message'] if diags else err)[:300]}"))
+        return 0
+    rc, so, se = ar.run("")
+    if so.strip() != '1 {"name":"n"}':
+        viol.append(("map-usage", None, spec, f"recursion through map values used in both directions: probe printed {so.strip()[:200]!r} (rc={rc} {se[-200:]})"))
+    return 1
+
+
 def main(tier, seed, replay=None):
     res = Result("C10", tier, seed)
     vlib.build_repo()
@@ -469,7 +506,8 @@ def main(tier, seed, replay=None):
                         viol.append((name, g, spec, f"{name}: reference {a} -> {b} is by value but the model marks {b} as lying on a dependency cycle (correspondence: marked targets are boxed)"))
                     if (named[a], named[b]) not in clo:
                         viol.append((name, g, spec, f"{name}: by-value-capable mention {a} -> {b} is not reachable through recorded dependencies (hypothesis of C10_finite_size)"))
-    res.counts.update({"evaluations": len(specs), "distinct_nontrivial": cyc_cases, "comparisons": n_marks + n_cov,
+    n_map = map_usage_part(viol)
+    res.counts.update({"evaluations": len(specs), "map_usage_cases": n_map, "distinct_nontrivial": cyc_cases, "comparisons": n_marks + n_cov,
                        "traces_validated_against_impl": len(specs), "exhaustive": tier != "quick",
                        "emitted_items": n_items, "boxed_references_observed": boxed_obs, "boxed_although_unmarked": gratuitous, "mention_states": dist,
                        "rule": "labelled reference graphs (2-node graphs over 8 member kinds x 4 ordered pairs, with/without an allOf parent: exhaustive in the thorough tier; random 2..5-node graphs with named unions, fingerprint-equal inline unions, allOf chains; shipped fixtures) -> CLI `generate types --all-schemas --no-helpers` -> syn read-back; (1) by-value containment among ALL emitted items must be acyclic; (2) every by-value-capable mention whose target the extracted model marks is boxed (boxes on unmarked targets are counted, not alarmed); (3) every by-value-capable mention lies in the transitive closure of the model's recorded dependencies"})
